@@ -185,6 +185,108 @@ def adversarial(rng, n):
     return out
 
 
+EDGE_PROGRAM = """
+fn down(n:int)->int{ if(n <= 0, 0, 1 + down(n - 1)) }
+fn helper(x:int)->int{ x + 1 }
+fn loop_(i:int, acc:int)->int{ if(i <= 0, acc, loop_(i - 1, helper(acc))) }
+fn deep()->int{ down(300) }
+fn many()->int{ range(25).map((i:int)->{down(39)}).to_array().len() }
+fn tailloop()->int{ loop_(10000000, 0) }
+fn never()->int{ count().filter((x:int)->{x < 0}).take(1).to_array().len() }
+fn nativenever()->int{ [true].to_generator().repeat().filter(not).take(1).to_array().len() }
+fn big()->int{ (3 ** (10 ** 9)) % 7 }
+fn small()->int{ helper(1) }
+"""
+EDGE_FNS = ["deep", "many", "tailloop", "never", "nativenever", "big", "small"]
+# user-function calls an unlimited run makes at least (the host's call of the function itself counts)
+EDGE_MIN_CALLS = {"deep": 300, "many": 1000, "tailloop": 10**7, "never": 10**9, "nativenever": 1, "big": 1, "small": 2}
+EDGE_ORDINARY = {"ud_calls": 5000, "search": 1000, "time_ms": 2000, "size": 50_000_000}
+EDGE_VIOL = {"ud_calls": "MaximumUDCall", "search": "MaximumSearch", "time_ms": "Timeout", "size": "AllocationLimitReached"}
+
+
+def limit_edges(chk):
+    """every limit kind that bounds work x the edge values 0, 1, 2 (and the ordinary value), the other limits ordinary: programs
+    that would run (nearly) for ever without the limit, as a first host call, as later host calls on the same runtime after
+    a violation without reset, and after a reset of the call counter.  Oracle: every call answers; a call limit of v refuses
+    every program that needs more than v calls; an exhausted call budget (and a passed deadline) stays exhausted for every
+    later call until it is reset; the user-call counter never exceeds limit + number of host calls + 1."""
+    reqs, metas = [], []
+    for kind in ("ud_calls", "search", "time_ms", "size"):
+        for v in (0, 1, 2, EDGE_ORDINARY[kind]):
+            limits = dict(EDGE_ORDINARY)
+            limits[kind] = v
+            for fn in EDGE_FNS:
+                for hist, label in (([fn, fn, "small", "small"], "reuse"),
+                                    ([fn, {"fn": "small", "reset": True}, fn, "small"], "reset")):
+                    reqs.append({"op": "run", "src": EDGE_PROGRAM, "get": [], "limits": limits, "calls": hist})
+                    metas.append((kind, v, fn, label, hist))
+    slow = c01_slowdown()
+    res = run_watched(reqs, QUICK_ANSWER * slow)
+    again = [i for i, r in enumerate(res) if "hang" in r][:6]
+    if again:
+        for i, r in zip(again, run_watched([reqs[i] for i in again], WATCHDOG * min(slow, 3.0), jobs=6)):
+            res[i] = r
+    for meta, r, req in zip(metas, res, reqs):
+        chk.evaluations += 1
+        v = edge_verdict(meta, r, req)
+        if v is None:
+            chk.count("G:ok")
+        elif v[0] is None:
+            chk.count("G:" + v[1])
+        else:
+            chk.violation(v[0], v[1], {**req, "edge_meta": list(meta), "got": v[2]})
+
+
+def edge_verdict(meta, r, req):
+    """None if fine; (None, counter) for an uninteresting outcome; (key, text, got) for a violation"""
+    kind, v, fn, label, hist = meta
+    vv = v if v < 1000 else "ordinary"
+    f = c16._fail(r)
+    if f is not None:
+        kindf = "hang" if f == "HANG" else "panic" if f.startswith("panic") else None
+        if kindf:
+            return (f"edge:{kind}={vv}:{fn}:{kindf}", f"host calls {hist} on one runtime under {req['limits']}: {f[:160]}", f)
+        return (None, "instantiation:" + f.split()[0])
+    outs = r.get("calls", [])
+    names = [h if isinstance(h, str) else h["fn"] for h in hist]
+    resets = [False if isinstance(h, str) else h.get("reset", False) for h in hist]
+    # (1) a call limit of v refuses every program that needs more calls than that
+    if kind == "ud_calls" and outs:
+        need = EDGE_MIN_CALLS[fn]
+        if v < 1000 and need >= max(v, 1) and outs[0] != "!viol MaximumUDCall":
+            return (f"edge:ud_calls={vv}:{fn}:not-enforced",
+                    f"under a user-call limit of {v} the host call {fn}() (at least {need} user calls) answered {outs[0][:80]}", outs)
+        if v >= 1000 and need > v and not outs[0].startswith("!viol"):
+            return (f"edge:ud_calls={vv}:{fn}:not-enforced",
+                    f"under a user-call limit of {v} the host call {fn}() (at least {need} user calls) answered {outs[0][:80]}", outs)
+    # (2) sticky budgets: after that limit's violation every later user call violates again, until the counter is reset
+    if kind in ("ud_calls", "time_ms"):
+        seen = False
+        for nm, rs, o in zip(names, resets, outs):
+            if rs and kind == "ud_calls":
+                seen = False
+            if seen and o != "!viol " + EDGE_VIOL[kind]:
+                return (f"edge:{kind}={vv}:{fn}:not-sticky",
+                        f"host calls {hist} on one runtime under {req['limits']}: answers {outs}; after {EDGE_VIOL[kind]} the budget is used up, "
+                        f"yet {nm}() answered {o[:80]}", outs)
+            if o == "!viol " + EDGE_VIOL[kind]:
+                seen = True
+    # (3) the user-call counter stays within the limit plus one per host call
+    lim = req["limits"]["ud_calls"]
+    last_reset = max([i for i, rs in enumerate(resets) if rs], default=0)
+    since = len(hist) - last_reset
+    total = r.get("ud_calls", 0)
+    if total > lim + since + 1:
+        return (f"edge:{kind}={vv}:{fn}:calls-unbounded",
+                f"host calls {hist} under a user-call limit of {lim}: the runtime counted {total} user calls", outs)
+    return None
+
+
+def c01_slowdown():
+    from . import c01
+    return c01.slowdown()
+
+
 def run(chk):
     rng = chk.rng
     quick = chk.tier == "quick"
@@ -335,6 +437,9 @@ def run(chk):
     # ------------------------------------------------------------------ (F) native loops over huge lazy sources with builtin callbacks
     c10_adv.run_loop_sweep(chk)
     phases["F"] = round(time.time() - chk.t0, 1)
+    # ------------------------------------------------------------------ (G) limit edges and re-use of a runtime after a violation
+    limit_edges(chk)
+    phases["G"] = round(time.time() - chk.t0, 1)
     # ------------------------------------------------------------------ (C) the gate at the beginning of a user call
     gate = [
         # (program, limits, model request, what the model's answer means for the program)
@@ -381,6 +486,16 @@ def replay(path):
     """re-run a replay file: the program through the interpreter (and the model request, if any); exit 1 while it still fails"""
     d = json.load(open(path))
     r = d["replay"]
+    if "edge_meta" in r:
+        req = {"op": "run", "src": r["src"], "get": [], "limits": r["limits"], "calls": r["calls"]}
+        resp = run_harness([req], per_req_timeout=120.0)[0]
+        print("host calls:", r["calls"], "limits:", r["limits"])
+        print("answers   :", resp.get("calls"), "ud_calls:", resp.get("ud_calls"))
+        m = r["edge_meta"]
+        v = edge_verdict((m[0], m[1], m[2], m[3], m[4]), resp, req)
+        bad = v is not None and v[0] is not None
+        print("VIOLATION property=C10 replay=%s" % path if bad else "no longer failing")
+        return 1 if bad else 0
     req = {"op": r.get("op", "run"), "src": r["src"], "get": r.get("get", ["a"]), "limits": r.get("limits", {})}
     if "f" in r:
         req["f"] = r["f"]
